@@ -459,8 +459,8 @@ def run(ctx):
                 'halved errors; non-trivial = passing and failing bins in one case (or a scalar case)')
     cases = corpus()
     ctx.count('corpus', len(cases))
-    nrand = 800 if quick else 24000
-    cases += boundary_cases(ctx.rng, 60 if quick else 1500)
+    nrand = 800 if quick else 15000
+    cases += boundary_cases(ctx.rng, 60 if quick else 1000)
     ctx.count('boundary', len(cases) - 10)
     cases += [gen_case(ctx.rng, quick) for _ in range(nrand)]
     done = []
